@@ -234,6 +234,8 @@ def run_C16(tier, seed):
     d.name += "@dev"
     res.append(d)
     res.append(stages.api_stage("C16", "alter", tier, seed, groups=("rist",)))
+    # whatever the validating constructors let through must be safe to verify with
+    res.append(stages.cases_stage("C16", "MC_Constructors", tier, seed, invariants="Documented", groups=("fm",)))
     res.append(stages.api_stage("C16", "capacity", tier, seed, groups=("fm",), profile="dev", limit=200 if q else None))
     res.append(stages.api_stage("C16", "batch", tier, seed, groups=("fm",), profile="dev", limit=250 if q else None))
     big = stages.api_stage("C16", "batch", tier, seed, groups=("rist",), scale="2:256", scale_min=0, limit=60 if q else 600)
